@@ -951,7 +951,7 @@ static int certattr_matchwildcard(GENERAL_NAME *gn, struct certattrmatch *match)
     char *wildcardtoken = "*.";
     char *suffix = NULL;
     ASN1_STRING *value;
-    size_t l;
+    size_t l, namelen;
     int ret = 0;
 
     if (OBJ_cmp(gn->d.otherName->type_id, match->oid) != 0)
@@ -963,15 +963,19 @@ static int certattr_matchwildcard(GENERAL_NAME *gn, struct certattrmatch *match)
     if (!(v = stringcopy(((char *)ASN1_STRING_get0_data(value)), l)))
         return 0;
 
-    if (l > 2 &&
-        strncmp(wildcardtoken, v, strlen(wildcardtoken)) == 0) {
+    namelen = strlen(match->name);
+    if (strlen(v) != l) {
+        debug(DBG_DBG, "certattr_matchwildcard: refusing value with embedded NUL");
+    } else if (l > 2 &&
+               strncmp(wildcardtoken, v, strlen(wildcardtoken)) == 0) {
         if (strstr(v + strlen(wildcardtoken), "*")) {
             debug(DBG_DBG, "certattr_matchwildcard: illegal wildcard additional * detected");
-        } else if ((suffix = strstr(match->name, v + 1))) {
+        } else if (namelen > l - 1 && strcmp((suffix = (char *)match->name + namelen - (l - 1)), v + 1) == 0) {
+            /* the realm ends in the wildcard's suffix; the wildcard stands for exactly one leading label */
             ret = strstr(match->name, ".") < suffix ? 0 : 1;
         }
     } else {
-        ret = strncmp(v, match->name, l) == 0 ? 1 : 0;
+        ret = l == namelen && strncmp(v, match->name, l) == 0 ? 1 : 0;
     }
     free(v);
     return ret;
